@@ -12,6 +12,7 @@ Node.policy_probs is wrapped to log the statistics of the node at call time and 
     any visit it is the prior; the solver's preconditions (q in [-1,1], prior a positive distribution) hold.
 How close the sum is to 1 is the solver's business (C10); only a gross deviation (> 5e-2) is reported here."""
 import math
+import os
 import time
 from collections import Counter
 from fractions import Fraction
@@ -167,19 +168,43 @@ def examine(trace):
 
 def volumes(run):
     if run.quick:
-        return dict(count=56, sizes=[3, 4], max_budget=48, transformer=1)
+        return dict(count=40, sizes=[3, 4], max_budget=40, transformer=1)
     return dict(count=700, sizes=[3, 4, 5, 6], max_budget=160, transformer=4)
 
 
-def report(run, trace, problems, c08_problems, model_view):
-    spec = trace["spec"]
+def one_search(spec):
+    """worker: recorded searches of one spec + the oracle + the Coq case; picklable result"""
+    import torch
+    torch.set_num_threads(1)
+    trace = c08.do_search(spec, record_solver=True, select=True)
+    c08_problems, c08_stats = c08.audit(trace)
+    problems, st = examine(trace)
+    if os.environ.get("VERIF_COQ_ONLY") and not trace["crash"]:
+        problems = []           # self-test of the Coq tie
+    if trace["crash"] and not problems:
+        problems = [{"clause": "the search completes", "crash": trace["crash"]}]
+    out = {"spec": spec, "key": c08.spec_key(spec), "problems": problems[:6], "c08_problems": c08_problems[:3],
+           "stats": dict(st), "hypothesis_not_met": c08_stats["hypothesis_not_met"], "term": None,
+           "root_position": takio.j_pos(trace["root_pos"]),
+           "impl_tree": c08.tree_summary(trace["tree"], 1) if trace.get("tree") is not None else None, "sample": None}
+    if (not problems and not trace["crash"] and c08.representable(trace) and not c08_stats["inexact_noise_mix"]
+            and not c08_stats["hypothesis_not_met"]):
+        out["term"] = case_term(trace)
+    if trace["rec"].all_calls:
+        c = trace["rec"].all_calls[-1]
+        out["sample"] = {"spec": spec, "last_solver_call": {"q": c["q"].tolist()[:12], "lambda": c["lam"],
+                                                            "pi": c["pi"].tolist()[:12], "out": c["out"].tolist()[:12]}}
+    return out
+
+
+def report(run, res, model_view):
+    spec, problems = res["spec"], res["problems"]
     clause = problems[0]["clause"] if problems else \
         "the solver inputs recorded on the implementation are not the model's policy_inputs on the same history"
     run.violation(f"policy-{c08.spec_key(spec)}", {
-        "clause": clause, "spec": spec, "root_position": takio.j_pos(trace["root_pos"]),
-        "oracle_problems": problems[:6], "c08_auditor_problems": c08_problems[:3],
-        "impl_tree": c08.tree_summary(trace["tree"], 1) if trace.get("tree") is not None else None,
-        "model_view": model_view,
+        "clause": clause, "spec": spec, "root_position": res["root_position"],
+        "oracle_problems": problems, "c08_auditor_problems": res["c08_problems"],
+        "impl_tree": res["impl_tree"], "model_view": model_view,
         "how_to_replay": "./check C09 --replay <this file>: re-runs the recorded searches of the spec and re-applies the oracle",
     })
 
@@ -190,49 +215,44 @@ def correspondence(run):
     torch.set_num_threads(1)
     c08.tie_cutoff(run)
     specs = c08.gen_specs(run, **volumes(run))
-    cs = core.Cases(ID, "calls", c08.HEADER, CTYPE, CHECK, show=SHOW, shard=(2 if run.quick else 6))
+    cs = core.Cases(ID, "calls", c08.HEADER, CTYPE, CHECK, show=SHOW, shard=(2 if run.quick else 4))
     dist, total = Counter(), Counter()
     samples, seen = [], set()
     ncalls = nontrivial = 0
     spread_max = sum_max = 0
     t0 = time.time()
-    for spec in specs:
-        trace = c08.do_search(spec, record_solver=True, select=True)
-        c08_problems, c08_stats = c08.audit(trace)
-        if c08_stats["hypothesis_not_met"]:
+    for res in c08.pmap(one_search, specs):
+        spec, st, key = res["spec"], Counter(res["stats"]), res["key"]
+        if res["hypothesis_not_met"]:
             dist["skipped:no-legal-move-reaches-the-cutoff"] += 1
             continue
-        problems, st = examine(trace)
-        spread_max = max(spread_max, st.pop("max_alpha_spread_e9"))
-        sum_max = max(sum_max, st.pop("max_sum_dev_e6"))
+        spread_max = max(spread_max, st.pop("max_alpha_spread_e9", 0))
+        sum_max = max(sum_max, st.pop("max_sum_dev_e6", 0))
         total.update(st)
         ncalls += st["policy_calls"]
-        key = c08.spec_key(spec)
         if key not in seen:
             nontrivial += st["calls_with_visited_and_unvisited_children"]
         seen.add(key)
         dist[f"size{spec['size']}"] += 1
         dist[f"eval:{spec['eval']['kind']}"] += 1
-        if problems:
-            report(run, trace, problems, c08_problems, None)
+        if res["problems"]:
+            dist["searches_violating"] += 1
+            if dist["searches_violating"] <= c08.MAX_REPORTS:
+                report(run, res, None)
             continue
-        if trace["crash"] or not c08.representable(trace) or c08_stats["inexact_noise_mix"]:
-            if trace["crash"]:
-                report(run, trace, [{"clause": "the search completes", "crash": trace["crash"]}], c08_problems, None)
+        if res["term"] is None:
+            dist["skipped:not-representable-or-inexact-noise-mix"] += 1
             continue
-        cs.add(case_term(trace), {"spec": spec, "key": key})
-        if len(samples) < 3 and trace["rec"].all_calls:
-            c = trace["rec"].all_calls[-1]
-            samples.append({"spec": spec, "last_solver_call": {"q": c["q"].tolist()[:12], "lambda": c["lam"],
-                                                               "pi": c["pi"].tolist()[:12], "out": c["out"].tolist()[:12]}})
+        cs.add(res["term"], {"spec": spec, "key": key})
+        if len(samples) < 3 and res["sample"]:
+            samples.append(res["sample"])
     run.extra["impl_wall_s"] = round(time.time() - t0, 1)
     failing, shard_fail, nshards = cs.run()
     run.oblige(f"correspondence:calls ({nshards} shards, {len(cs)} histories)", not shard_fail, str(shard_fail)[:1500])
-    for meta in failing:
-        trace = c08.do_search(meta["spec"], record_solver=True, select=True)
-        problems, _ = examine(trace)
-        c08_problems, _ = c08.audit(trace)
-        report(run, trace, problems, c08_problems, cs.model_view(cs.terms[cs.metas.index(meta)]))
+    dist["searches_disagreeing_with_model"] = len(failing)
+    for meta in failing[:c08.MAX_REPORTS]:
+        res = one_search(meta["spec"])
+        report(run, res, cs.model_view(cs.terms[cs.metas.index(meta)]))
     dist.update(total)
     dist["max_alpha_spread_e9"] = spread_max
     dist["max_abs_sum_minus_1_e6"] = sum_max
@@ -244,11 +264,9 @@ def correspondence(run):
 
 def search(run, broken):
     core.setup_impl(ext=True, shims=True)
-    for spec in c08.gen_specs(run, count=40, sizes=[3, 4], max_budget=40, transformer=0):
-        trace = c08.do_search(spec, record_solver=True, select=True)
-        problems, _ = examine(trace)
-        if problems:
-            report(run, trace, problems, [], None)
+    for res in c08.pmap(one_search, c08.gen_specs(run, count=40, sizes=[3, 4], max_budget=40, transformer=0)):
+        if res["problems"] and not res["hypothesis_not_met"]:
+            report(run, res, None)
             return True
     return False
 
